@@ -1,5 +1,6 @@
 #!/bin/bash
 # usage: tools/merge_agent.sh <agent-name>   — copies an agent's owned files from /tmp/ag/<name>/verif
+# (OWN=<regex> restricts copying to the files the agent owns; others are only reported)
 # into /verif (never the shared framework files) and lists what was copied / what differs.
 set -e
 A=/tmp/ag/$1/verif
@@ -11,6 +12,10 @@ find coq/theories coq/extract coq/gen ocaml harness/src tools notes corpus -type
   | grep -v '_build\|/gen/.*\.ml\|__pycache__\|coq/extract/Extract.v' | sort | while read f; do
   if echo "$f" | grep -Eq "$SHARED"; then
     if ! cmp -s "$f" "/verif/$f" 2>/dev/null; then echo "SHARED-DIFFERS $f"; fi
+    continue
+  fi
+  if [ -n "${OWN:-}" ] && ! echo "$f" | grep -Eq "$OWN"; then
+    if [ -e "/verif/$f" ] && ! cmp -s "$f" "/verif/$f"; then echo "NOT-OWNED-DIFFERS $f"; fi
     continue
   fi
   if [ ! -e "/verif/$f" ]; then
